@@ -81,6 +81,11 @@ CHECKS = {
          "Sessions against a real App with websocket_handler: the handler runs a recv loop, a recv_nonblocking polling loop, sends k messages first, or drops the stream immediately / after j messages; the reference client sends text/binary messages of 0..70 KiB in 1..5 fragments with pings interleaved, pings, pongs, and ends with a Close (with/without payload), by waiting for the server drop, or abruptly; keys absent / sample / any printable / empty / 200 chars; frames delivered whole, byte-wise, split after k bytes (inside header, extended length, key) or randomly. The 101 must carry the reference Sec-WebSocket-Accept (no key: no 101); every byte after it must decode as legal unmasked frames equal to the required sequence (server messages, one Pong with equal payload per Ping in order, Close for Close, Close on drop); the handler's received messages (fragments concatenated, type from the first fragment) must equal the client's, identically for blocking and non-blocking receive, and a client Close must surface as ConnectionClosed.",
          "Trusts the reference codec/client. When the server stops while client bytes are still unread the kernel resets the connection and may discard the server's last bytes, so in those scripts only a prefix of the server frames is compared. A vanished peer is reported by recv_nonblocking as `nothing yet` (not judged).",
          "DESIGN.md §5 C11"),
+ "C12": ("exploration",
+         "stateful proptest generation of multi-client scenarios (scripts, pool sizes, poll intervals, external sends) against a real App + AsyncWebsocketApp on loopback; history invariants over the handler event log and each client's received frames",
+         "Scenarios of 1..8 reference WebSocket clients (send text/binary in 1..3 fragments, bursts of several messages in one write, ping, sleeps; leaving with a Close or vanishing abruptly with the heartbeat on), handler pools of 1..8 threads, poll interval none..10 ms, and an external AsyncSender issuing unicasts and broadcasts, ended by a shutdown signal. Checked over the event log and the clients' frames: connect and disconnect exactly once per client; each client message dispatched exactly once; with a 1-thread handler pool connect before first message, messages in send order, nothing after disconnect; each echo unicast reaches exactly its sender once; external messages at most once, unicasts only at their addressee, and every client that was connected and not leaving when one was issued receives it; run() returns within 10 s of the shutdown signal.",
+         "Interleavings are those the OS scheduler and the generated delays produce (no controlled scheduler), so a race can be missed but the oracle accepts every linearisation the property allows. Heartbeat 100 ms / 1.5 s; clients answer pings.",
+         "DESIGN.md §5 C12"),
 }
 
 NOT_YET = "check not built yet (work in progress; see DESIGN.md §5 for the intended design)"
